@@ -26,5 +26,14 @@ if [ "${1:-}" = "C13" ] && [ "${3:-}" != "--replay" ]; then
   fi
   rm -f "$LOG.fuzz.$$"
 fi
+# thorough tier of the properties served by the `ops` target: auxiliary coverage-guided campaign
+case "${1:-}" in C01|C02|C03|C04|C05|C06|C07|C08|C09|C10|C18|C19|C20)
+  if [ "${2:-quick}" = "thorough" ] && [ "${3:-}" != "--replay" ]; then
+    if ! (cd "$HERE/harness/fuzz" && RUSTFLAGS="--cfg gdsl_verif" cargo +nightly fuzz build --release ops >"$LOG.fuzz.$$" 2>&1); then
+      echo "note: fuzz target ops did not build (the check reports this as inconclusive)"; tail -5 "$LOG.fuzz.$$"
+    fi
+    rm -f "$LOG.fuzz.$$"
+  fi;;
+esac
 cd "$HERE" || exit 2
 exec "$HERE/harness/target/release/gv" "$@"
